@@ -162,10 +162,8 @@ func c01Sequences(c *core.Ctx) {
 			gs := guardsOf(ins[0])
 			ok := len(gs) == 1 && gs[0].Branch
 			if ok {
-				if ph, isPhi := gs[0].Cond.(*ssa.Phi); !isPhi || ph.Comment != "needFullSync" {
-					if !strings.Contains(gs[0].Key, "NeedFullSync") {
-						ok = false
-					}
+				if !strings.Contains(gs[0].Key, "NeedFullSync") {
+					ok = false
 				}
 			}
 			c.Check(ok, "converters.Sync clears iff a full sync is needed: "+nm, at(c, ins[0]), "", "the clearing is not exactly on the true branch of needFullSync")
@@ -185,7 +183,8 @@ func c01Sequences(c *core.Ctx) {
 			}
 			n++
 			ph, isPhi := call.Call.Args[0].(*ssa.Phi)
-			c.Check(isPhi && ph.Comment == "needFullSync" || strings.Contains(core.Key(call.Call.Args[0]), "NeedFullSync"), "the converter is told the decided mode: "+recvType(call), at(c, sy), "", "Sync receives `"+core.Key(call.Call.Args[0])+"`, not the needFullSync decision: model cleared but converter runs partially (or the reverse)")
+			_ = ph
+			c.Check(isPhi && strings.Contains(core.Key(call.Call.Args[0]), "NeedFullSync") || strings.Contains(core.Key(call.Call.Args[0]), "NeedFullSync"), "the converter is told the decided mode: "+recvType(call), at(c, sy), "", "Sync receives `"+core.Key(call.Call.Args[0])+"`, not the needFullSync decision: model cleared but converter runs partially (or the reverse)")
 		}
 		c.Check(n >= 4, "converters receive the mode", c.Pos(fn.Pos()), "", fmt.Sprintf("%d Sync(mode) calls (3 gateway versions + ingress)", n))
 	}
